@@ -100,7 +100,7 @@ def decl_text(d):
     return d["text"]
 
 
-def make_decls(rnd):
+def make_decls(rnd, typedecl=True):
     """A random list of top-level declarations with their dependencies, as (abstract decl for the spec, text, deps)."""
     mode = {"endian": "<", "align": rnd.random() < 0.5, "ptr": 8}
     g = A.Gen(rnd, mode, {"depth": 1, "max_fields": 4, "consts": False, "expr": True})
@@ -136,6 +136,25 @@ def make_decls(rnd):
                     text = f"typedef {kw} {{" + text[len(head):-1] + " " + ", ".join([name] + extra) + ";"
                 else:
                     extra = []
+            kw = "union" if sub["k"] == "union" else "struct"
+            head = f"{kw} {name} {{"
+            if typedecl and not extra and sub["k"] in ("struct", "union") and text.startswith(head) and rnd.random() < 0.25:
+                # typedef struct [X] {...} *PX;   /   typedef struct [X] {...} AX[n];     (finding F56: the declarator is not the
+                # structure's name; without a tag the structure stays anonymous)
+                selfref = re.search(rf"\b{name}\b", text[len(head):]) is not None
+                last = (name, text) == r.defs[-1]            # nothing else refers to the top-level structure by name
+                anon = last and not selfref and rnd.random() < 0.5
+                ptr = rnd.random() < 0.6
+                alias = ("P" if ptr else "A") + name
+                n = rnd.randrange(1, 4)
+                body = (f"typedef {kw} {{" if anon else f"typedef {head}") + text[len(head):-1]
+                text = body + (f" *{alias};" if ptr else f" {alias}[{n}];")
+                ct = canon(sub)
+                if anon:
+                    ct["name"] = ""
+                decls.append({"kind": "typedecl", "names": [] if anon else [name], "type": ct, "alias": alias, "ptr": ptr, "n": 0 if ptr else n,
+                              "text": text, "deps": deps_of(sub) - {name}, "key": alias if anon else name})
+                continue
             decls.append({"kind": "type", "names": [name] + extra, "type": canon(sub), "text": text,
                           "deps": deps_of(sub) - {name}, "key": name})
     if rnd.random() < 0.5:
@@ -215,6 +234,8 @@ def spec_decls(decls, order):
             out.append({"kind": "alias", "names": d["names"], "target": d["target"]})
         elif d["kind"] in ("aliasarr", "aliasptr"):
             out.append({"kind": d["kind"], "names": d["names"], "target": d["target"], "n": d.get("n", 0)})
+        elif d["kind"] == "typedecl":
+            out.append({"kind": "typedecl", "names": d["names"], "type": d["type"], "alias": d["alias"], "ptr": d["ptr"], "n": d["n"]})
     return out
 
 
@@ -388,7 +409,7 @@ class ParserCheck:
             decls, consts, mode = make_decls(rnd)
             compiled = rnd.random() < 0.5
             base_order = list(range(len(decls)))
-            names = [n for d in decls for n in d.get("names", [])]
+            names = [n for d in decls for n in d.get("names", []) + ([d["alias"]] if d["kind"] == "typedecl" else [])]
             cpairs = [[k, v] for k, v in sorted(consts.items())]
 
             def record(order, texts, tag, extra=None):
